@@ -367,6 +367,15 @@ static FILE *open_file(char *path) {
   return out;
 }
 
+// Flush and close an output stream. Buffered data may reach the file
+// only here, so this is where a full disk or an I/O error shows up.
+static void close_file(FILE *out) {
+  if (fflush(out) || ferror(out))
+    error("cannot write output file: %s", strerror(errno));
+  if (out != stdout)
+    fclose(out);
+}
+
 static bool endswith(char *p, char *q) {
   int len1 = strlen(p);
   int len2 = strlen(q);
@@ -506,6 +515,7 @@ static void print_tokens(Token *tok) {
     line++;
   }
   fprintf(out, "\n");
+  close_file(out);
 }
 
 static bool in_std_include_path(char *path) {
@@ -555,6 +565,7 @@ static void print_dependencies(void) {
       fprintf(out, "%s:\n\n", quote_makefile(files[i]->name));
     }
   }
+  close_file(out);
 }
 
 static Token *must_tokenize_file(char *path) {
@@ -630,7 +641,7 @@ static void cc1(void) {
   // Write the asembly text to a file.
   FILE *out = open_file(output_file);
   fwrite(buf, buflen, 1, out);
-  fclose(out);
+  close_file(out);
 }
 
 static void assemble(char *input, char *output) {
